@@ -3,20 +3,62 @@ from __future__ import annotations
 
 import asyncio
 
+from harness import c17_access as ca
 from harness import core
 from harness import sandbox_common as sc
+from translate import access_paths as tr_access
 from translate import sandbox as tr_sandbox
 
 ID = "C17"
-GEN = [tr_sandbox.gen]
+GEN = [tr_sandbox.gen, tr_access.gen]
 LEAN_MODULES = ["JinjaV.Props.C17"]
 LEVEL = "proof"
 TRUSTED = [
     "translator translate/sandbox.py (decision functions; cross-run against the real functions each run)",
+    "translator translate/access_paths.py (whole bodies of SandboxedEnvironment.getitem/getattr/unsafe_undefined/"
+    "wrap_str_format, SandboxedFormatter.get_field, Environment.getitem/getattr; every one of the 576 abstract worlds is "
+    "realised by a concrete object/argument and cross-run against the real methods each run); the abstraction itself: a "
+    "lookup method observes its inputs only through type(argument)/isinstance(argument, str), obj[argument], "
+    "getattr(obj, name), wrap_str_format and is_safe_attribute (anything else in the body is untranslatable)",
     "that every access route consults the decision functions is established per generated program by the "
     "structural check of the generated Python code and by tracer probes (translation validation / correspondence), "
     "not by a theorem about compiler.py",
 ]
+CLAIM = dict(
+    category="proof",
+    technique="Lean 4 proofs over the sandbox decision functions AND the whole bodies of the lookup methods "
+              "(getitem/getattr/unsafe_undefined/wrap_str_format/get_field, plus the base-environment methods a super() "
+              "call reaches) regenerated from sandbox.py/environment.py by Python-ast translators + world-by-world "
+              "cross-run of the regenerated methods against the real ones + adversarial access-route x key-kind probes "
+              "with tracer objects + structural validation of generated code",
+    text="Theorems (Props/C17.lean over Gen/Sandbox.lean and Gen/AccessPaths.lean): for every object and attribute "
+         "name, what is_safe_attribute admits neither starts with an underscore nor is internal (safe_attr_decision, "
+         "also for the immutable subclass); every dunder name is internal on every object; the documented internal "
+         "attributes (mro, gi_*, cr_*, ag_*, everything on code/frame/traceback) are internal. For EVERY kind of "
+         "subscript/attribute argument (exact str, str subclass such as Markup, int, other) and every way obj[arg] "
+         "and getattr(obj, name) can end, SandboxedEnvironment.getitem and getattr return the raw attribute value "
+         "only if is_safe_attribute said yes and the value is not a str.format/format_map method (getitem_checked, "
+         "getattr_checked; composed with the decision theorems in access_sound / access_sound_immutable); an existing "
+         "unsafe attribute is answered with unsafe_undefined, which raises SecurityError (unsafe_attr_refused); every "
+         "bound format/format_map of a str is wrapped and the wrapper formats through SandboxedFormatter, whose "
+         "get_field resolves each step with env.getattr/env.getitem (format_methods_wrapped, format_fields_sandboxed). "
+         "The method bodies are read whole: an early return, a type test on the argument or a delegation to super() "
+         "is part of the regenerated function (the base Environment.getitem/getattr are translated too) or makes the "
+         "translator fail. Tie: translated decision functions and all 576 abstract worlds x 3 realisations x "
+         "{sandboxed, immutable, base} cross-run against the real methods; 23 access routes with literal names plus "
+         "the product {28 ways a template can build a key: literal, context str, |safe, |e, |escape, |forceescape, "
+         "set-block/macro/join/~ under autoescape, Markup +/%, filter chains, Markup and str-subclass instances from "
+         "the context, int/none/tuple/float} x {21 lookup routes: obj[key], |attr, map/selectattr/rejectattr/sort/"
+         "groupby/unique/min/max/sum/join attribute arguments, dotted attribute paths} and x {9 ways to fetch "
+         "format/format_map off a string by key} x probe objects (private instance/class/property/method/dunder "
+         "attributes, __getattr__ proxy, nested objects, 16 special objects) x 8 environments (sandboxed/immutable x "
+         "sync/async x autoescape on/off), with the generated code of every program checked structurally (no "
+         "attribute/subscript/call on l_N_* values).",
+    note="Trusted: Lean kernel; the two translators; the abstraction of a lookup method to its observable inputs; that "
+         "each template route consults getitem/getattr is shown per program (translation validation + probes), not by a "
+         "theorem about compiler.py/filters.py.",
+    design_ref="§5 C17, design/C17.md",
+)
 ASSUMPTIONS = ["is_safe_attribute is not overridden by the application; objects do not hand out private state through public names"]
 
 
@@ -67,6 +109,12 @@ class Tracer:
     def __lt__(self, other):
         self._use("lt")
         return False
+
+    def __add__(self, other):
+        self._use("add")
+        return "TRACER"
+
+    __radd__ = __add__
 
 
 def make_probe(log):
@@ -148,57 +196,242 @@ INTERNAL_EXPRS = [
     ("num", "__class__"), ("none_v", "__class__"),
 ]
 
+# ---------------------------------------------------------------------------------------------------
+# every way a template can build the subscript / attribute-name argument
+# ---------------------------------------------------------------------------------------------------
 
-def run(ctx, res):
-    jinja2 = core.import_jinja()
+def _q(s):
+    return "'" + s + "'"
+
+
+def _split(name):
+    h = max(1, len(name) // 2)
+    return name[:h], name[h:]
+
+
+# kind -> (setup prefix, key expression); {i} is the index of the name in the data (k_str_i, k_mk_i, …)
+KEY_KINDS = [
+    ("literal", lambda n, i: ("", _q(n))),
+    ("ctx-str", lambda n, i: ("", f"k_str_{i}")),
+    ("safe", lambda n, i: ("", f"{_q(n)}|safe")),
+    ("e", lambda n, i: ("", f"{_q(n)}|e")),
+    ("escape", lambda n, i: ("", f"{_q(n)}|escape")),
+    ("forceescape", lambda n, i: ("", f"{_q(n)}|forceescape")),
+    ("set-block", lambda n, i: ("{% set kb %}" + n + "{% endset %}", "kb")),
+    ("set-block-filter", lambda n, i: ("{% set kb | trim %} " + n + " {% endset %}", "kb")),
+    ("set-expr-safe", lambda n, i: ("{% set ks = " + _q(n) + "|safe %}", "ks")),
+    ("macro", lambda n, i: ("{% macro mk() %}" + n + "{% endmacro %}", "mk()")),
+    ("call-block", lambda n, i: ("{% macro mc() %}{{ caller() }}{% endmacro %}{% set kc %}{% call mc() %}" + n
+                                 + "{% endcall %}{% endset %}", "kc")),
+    ("tilde-markup", lambda n, i: ("", f"({_q(_split(n)[0])}|safe) ~ {_q(_split(n)[1])}")),
+    ("tilde-plain", lambda n, i: ("", f"{_q(_split(n)[0])} ~ {_q(_split(n)[1])}")),
+    ("plus-markup", lambda n, i: ("", f"({_q(_split(n)[0])}|safe) + {_q(_split(n)[1])}")),
+    ("percent-markup", lambda n, i: ("", f"('%s'|safe) % {_q(n)}")),
+    ("format-filter", lambda n, i: ("", f"'%s'|safe|format({_q(n)})")),
+    ("join-filter", lambda n, i: ("", f"[{_q(_split(n)[0])}|safe, {_q(_split(n)[1])}]|join")),
+    ("safe-trim", lambda n, i: ("", f"{_q(n)}|safe|trim")),
+    ("safe-string", lambda n, i: ("", f"{_q(n)}|safe|string")),
+    ("list-first", lambda n, i: ("", f"[{_q(n)}|safe]|first")),
+    ("loop-var", lambda n, i: ("{% set ns = namespace(k='') %}{% for x in [" + _q(n) + "|safe] %}{% set ns.k = x %}{% endfor %}", "ns.k")),
+    ("ctx-markup", lambda n, i: ("", f"k_mk_{i}")),
+    ("ctx-strsub", lambda n, i: ("", f"k_my_{i}")),
+    ("ctx-strsub-split", lambda n, i: ("", f"k_ks_{i}")),
+    ("int", lambda n, i: ("", "0")),
+    ("none", lambda n, i: ("", "none")),
+    ("tuple", lambda n, i: ("", "(1, 2)")),
+    ("float", lambda n, i: ("", "1.5")),
+]
+NONSTR_KINDS = {"int", "none", "tuple", "float"}
+
+
+def key_routes(obj, k):
+    """lookup routes taking a *computed* key `k` (an expression); (name, template setting v, direct?)"""
+    yield "subscript", "{%% set v = %s[%s] %%}" % (obj, k), True
+    yield "attr-filter", "{%% set v = %s|attr(%s) %%}" % (obj, k), True
+    yield "map-attr-filter", "{%% set v = [%s]|map('attr', %s)|first %%}" % (obj, k), True
+    yield "map-attribute", "{%% set v = [%s]|map(attribute=%s)|first %%}" % (obj, k), True
+    yield "map-attribute-default", "{%% set v = [%s]|map(attribute=%s, default=none)|first %%}" % (obj, k), True
+    yield "selectattr", "{%% set v = [%s]|selectattr(%s)|list %%}" % (obj, k), False
+    yield "selectattr-test", "{%% set v = [%s]|selectattr(%s, 'string')|list %%}" % (obj, k), False
+    yield "rejectattr", "{%% set v = [%s]|rejectattr(%s)|list %%}" % (obj, k), False
+    yield "rejectattr-test", "{%% set v = [%s]|rejectattr(%s, 'none')|list %%}" % (obj, k), False
+    yield "sort-attribute", "{%% set v = [%s, %s]|sort(attribute=%s)|list %%}" % (obj, obj, k), False
+    yield "groupby", "{%% set v = [%s]|groupby(%s)|list %%}" % (obj, k), False
+    yield "groupby-kw", "{%% set v = [%s]|groupby(attribute=%s)|list %%}" % (obj, k), False
+    yield "unique-attribute", "{%% set v = [%s, %s]|unique(attribute=%s)|list %%}" % (obj, obj, k), False
+    yield "min-attribute", "{%% set v = [%s, %s]|min(attribute=%s) %%}" % (obj, obj, k), False
+    yield "max-attribute", "{%% set v = [%s, %s]|max(attribute=%s) %%}" % (obj, obj, k), False
+    yield "sum-attribute", "{%% set v = [%s]|sum(attribute=%s, start='') %%}" % (obj, k), False
+    yield "join-attribute", "{%% set v = [%s]|join(',', attribute=%s) %%}" % (obj, k), False
+    yield "nested-subscript", "{%% set v = {'o': %s}['o'][%s] %%}" % (obj, k), True
+    yield "loop-subscript", "{%% for o in [%s] %%}{{ leak(o[%s]) }}{%% endfor %%}{%% set v = none %%}" % (obj, k), True
+    yield "macro-subscript", "{%% macro m(o, kk) %%}{{ leak(o[kk]) }}{%% endmacro %%}{{ m(%s, %s) }}{%% set v = none %%}" % (obj, k), True
+    yield "cond-subscript", "{%% set v = %s[%s] if true else none %%}" % (obj, k), True
+
+
+DIRECT_ROUTES = ("subscript", "attr-filter", "map-attr-filter", "map-attribute")
+
+
+def format_key_routes(name, obj, kf, kfm):
+    """`format` / `format_map` fetched off a string through a computed key (kf / kfm), then applied to the probe"""
+    yield "fmtkey-subscript", "{%% set v = '{0.%s}'[%s](%s) %%}" % (name, kf, obj)
+    yield "fmtkey-subscript-item", "{%% set v = '{0[%s]}'[%s](%s) %%}" % (name, kf, obj)
+    yield "fmtkey-map-subscript", "{%% set v = '{p.%s}'[%s]({'p': %s}) %%}" % (name, kfm, obj)
+    yield "fmtkey-markup-subscript", "{%% set v = ('{0.%s}'|safe)[%s](%s) %%}" % (name, kf, obj)
+    yield "fmtkey-attr-filter", "{%% set v = ('{0.%s}'|attr(%s))(%s) %%}" % (name, kf, obj)
+    yield "fmtkey-map-attribute", "{%% set v = (['{0.%s}']|map(attribute=%s)|first)(%s) %%}" % (name, kf, obj)
+    yield "fmtkey-stored", "{%% set f = '{0.%s}'[%s] %%}{%% set v = f(%s) %%}" % (name, kf, obj)
+    yield "fmtkey-data-markup", "{%% set v = mk_%s[%s](%s) %%}" % (name.strip("_") or "u", kf, obj)
+    yield "fmtkey-ctx-string", "{%% set v = fs_%s[%s](%s) %%}" % (name.strip("_") or "u", kf, obj)
+
+
+ENVS = [(cls, a, ae) for cls in ("sandboxed", "immutable") for a in (False, True) for ae in (False, True)]
+
+
+def env_name(cls, is_async, autoescape):
+    return cls + ("-async" if is_async else "") + ("-autoescape" if autoescape else "")
+
+
+def make_env(name):
     from jinja2 import sandbox
-    from jinja2.runtime import Undefined
-    from markupsafe import Markup
+    parts = name.split("-")
+    cls = sandbox.ImmutableSandboxedEnvironment if parts[0] == "immutable" else sandbox.SandboxedEnvironment
+    return cls(enable_async="async" in parts, autoescape="autoescape" in parts)
+
+
+ALL_NAMES = sorted(set(PRIVATE + LAZY_PRIVATE + ["_deep", "inner._deep", "format", "format_map"] + [n for _, n in INTERNAL_EXPRS]))
+
+
+def special_objects():
     import collections
     import sys
 
-    n_cross = sc.decision_crosscheck(res, "C17")
-    evaluations, distinct, structural_programs = 0, set(), 0
-    outcomes = {}
-    envs = [
-        ("sandboxed", sandbox.SandboxedEnvironment()),
-        ("immutable", sandbox.ImmutableSandboxedEnvironment()),
-        ("sandboxed-async", sandbox.SandboxedEnvironment(enable_async=True)),
-        ("sandboxed-autoescape", sandbox.SandboxedEnvironment(autoescape=True)),
-    ]
+    def fn():
+        pass
 
-    def special_objects():
-        def fn():
+    def gen():
+        yield 1
+
+    async def co():
+        return 1
+
+    async def ag():
+        yield 1
+
+    class K:
+        def m(self):
             pass
 
-        def gen():
-            yield 1
+    try:
+        raise ValueError
+    except ValueError:
+        tb = sys.exc_info()[2]
+    c = co()
+    return {"fn": fn, "gen": gen(), "coro": c, "agen": ag(), "cls": K, "meth": K().m, "code": fn.__code__,
+            "frame": tb.tb_frame, "tb": tb, "s": "str", "lst": [1], "dct": {"a": 1}, "dq": collections.deque([1]),
+            "st": {1}, "num": 3, "none_v": None}, c
 
-        async def co():
-            return 1
 
-        async def ag():
-            yield 1
+def make_data(log):
+    """the context every generated template is rendered with (rebuilt for a replay)"""
+    from markupsafe import Markup
 
-        class K:
-            def m(self):
-                pass
+    class MyStr(str):
+        pass
 
-        try:
-            raise ValueError
-        except ValueError:
-            tb = sys.exc_info()[2]
-        c = co()
-        return {"fn": fn, "gen": gen(), "coro": c, "agen": ag(), "cls": K, "meth": K().m, "code": fn.__code__,
-                "frame": tb.tb_frame, "tb": tb, "s": "str", "lst": [1], "dct": {"a": 1}, "dq": collections.deque([1]),
-                "st": {1}, "num": 3, "none_v": None}, c
+    class KeepStr(str):
+        """a str subclass whose split keeps the subclass (as Markup's does)"""
 
-    def one(envname, env, src, data, log, leaks, key, what):
+        def split(self, *a, **k):
+            return [KeepStr(x) for x in str.split(self, *a, **k)]
+
+    probe, lazy = make_probe(log)
+    data = {"p": probe, "lz": lazy}
+    for n in sorted(set(PRIVATE + LAZY_PRIVATE + [n for _, n in INTERNAL_EXPRS] + ["_deep"])):
+        data["mk_" + (n.strip("_") or "u")] = Markup("{0.%s}" % n)
+        data["fs_" + (n.strip("_") or "u")] = "{0.%s}" % n
+    for i, n in enumerate(ALL_NAMES):
+        data[f"k_str_{i}"] = n
+        data[f"k_mk_{i}"] = Markup(n)
+        data[f"k_my_{i}"] = MyStr(n)
+        data[f"k_ks_{i}"] = KeepStr(n)
+    sp, coro = special_objects()
+    data.update(sp)
+    return data, coro
+
+
+def make_leak(leaks):
+    from jinja2.runtime import Undefined
+
+    def leak(v, _leaks=leaks):
+        if not isinstance(v, Undefined) and v is not None and v != "" and v != [] and "Undefined" not in str(type(v)):
+            # lists produced by filters over undefined values are fine; real values are not
+            if isinstance(v, list) and all(isinstance(i, Undefined) for i in v):
+                return ""
+            _leaks.append(type(v).__name__)
+        return ""
+    return leak
+
+
+_LOOP = []
+
+
+def _loop():
+    if not _LOOP or _LOOP[0].is_closed():
+        _LOOP[:] = [asyncio.new_event_loop()]
+    return _LOOP[0]
+
+
+def render_case(env, full, data, code=None):
+    """render `full`; with `code` (the generated Python source of `full`, as checked structurally) the template is
+    built from exactly that code (what Environment.from_string does, minus generating it a second time)"""
+    try:
+        if code is None:
+            t = env.from_string(full)
+        else:
+            t = env.template_class.from_code(env, env._compile(code, "<template>"), env.make_globals(None), None)
+        out = _loop().run_until_complete(t.render_async(**data)) if env.is_async else t.render(**data)
+        return out, None
+    except Exception as e:  # noqa
+        return "", type(e).__name__
+
+
+def run(ctx, res):
+    core.import_jinja()
+    full_product = not ctx.quick
+
+    n_cross = sc.decision_crosscheck(res, "C17")
+    n_access, access_kinds, n_drift, n_api_leaks = ca.crosscheck(res, variants=3)
+    n_wrap = ca.wrap_crosscheck(res)
+    cex = ca.counterexamples()
+    # a changed Gen file over which every theorem is re-proved and which agrees with the real methods world by world
+    # needs no wider search; a failing translator, failing proof or a model/implementation difference does
+    intensify = bool(ctx.tie_broken or ctx.proof_broken or n_drift or cex)
+    if cex:
+        names = sorted({m for m, _ in cex})
+        res.violate("C17:tie:lookup-methods",
+                    "theorems " + "/".join(f"{m}_checked" for m in names) + " (Props/C17.lean) are false over the regenerated "
+                    "SandboxedEnvironment." + "/".join(names) + f": {len(cex)} abstract worlds hand out the raw attribute without "
+                    "is_safe_attribute / wrap_str_format, e.g. " + "; ".join(
+                        f"{m}: argument kind {w[0]}, obj[arg] -> {w[1]}, getattr -> {w[2]}, value is format method={w[3]}, "
+                        f"is_safe_attribute={w[4]}" for m, w in cex[:3]),
+                    {"theorems": [f"JinjaV.C17.{m}_checked" for m in names], "abstract_counterexamples": [[m, list(w)] for m, w in cex[:40]],
+                     "proof_broken": list(ctx.proof_broken), "gen_changed": list(ctx.gen_changed)}, no_input=True)
+        res.notes.append("abstract counterexamples of getitem_checked/getattr_checked over the regenerated methods "
+                         "(method, [arg kind, obj[arg], getattr, isFormat, is_safe_attribute]): " + repr(cex[:6]))
+    evaluations, distinct, structural_programs = 0, set(), 0
+    outcomes, kinds_hit, routes_hit, key_types = {}, {}, {}, {}
+    reported = {"n": 0, "suppressed": 0}
+    cap = 12
+
+    def one(envname, env, src, data, log, leaks, key, what, direct=None, capped=False):
         nonlocal evaluations, structural_programs
         leaks.clear()
         del log[:]
-        direct = key.split(":")[1] in ("dot", "subscript", "attr-filter", "map-attribute", "map-attr-filter", "control")
+        if direct is None:
+            direct = key.split(":")[1] in ("dot", "subscript", "attr-filter", "map-attribute", "map-attr-filter", "control")
         full = src + ("{{ leak(v) }}" if direct else "{{ v }}")
+        err, out = None, ""
         try:
             code = env.compile(full, raw=True)
             sv = sc.structural_violations(code, sandboxed=True)
@@ -206,74 +439,193 @@ def run(ctx, res):
             if sv:
                 res.violate(f"C17:structural:{sv[0][0]}", f"generated code of {full!r} accesses a template value directly: {sv[0][1]}",
                             {"src": full, "env": envname, "snippets": sv[:3]})
-            t = env.from_string(full)
-            out = asyncio.run(t.render_async(**data)) if env.is_async else t.render(**data)
-            err = None
+            out, err = render_case(env, full, data, code)
         except Exception as e:  # noqa
             out, err = "", type(e).__name__
         evaluations += 1
         outcomes[err or "rendered"] = outcomes.get(err or "rendered", 0) + 1
         leaked = bool(leaks) or bool(log) or "TRACER" in out
         if leaked:
-            res.violate(key, f"{envname}: {full!r} handed a private/internal attribute to the template "
-                             f"({what}; leak() got {leaks[:2]!r}, tracer uses {log[:3]!r}, output {out[:60]!r})",
-                        {"src": full, "env": envname})
+            if capped and reported["n"] >= cap and not any(v.key == key for v in res.violations):
+                reported["suppressed"] += 1
+            else:
+                if capped and not any(v.key == key for v in res.violations):
+                    reported["n"] += 1
+                res.violate(key, f"{envname}: {full!r} handed a private/internal attribute to the template "
+                                 f"({what}; leak() got {leaks[:2]!r}, tracer uses {log[:3]!r}, output {out[:60]!r})",
+                            {"src": full, "env": envname, "data": "harness.props.c17.make_data (probe p, proxy lz, special "
+                                                                "objects, k_*/mk_*/fs_* keys)",
+                             "observed": {"leak_got": leaks[:3], "tracer_uses": [list(x) for x in log[:3]], "output": out[:120], "error": err},
+                             "expected": "v is undefined (or SecurityError); no tracer is used"})
         return out, err
 
-    for envname, env in envs:
-        log, leaks = [], []
+    name_index = {n: i for i, n in enumerate(ALL_NAMES)}
+    samples = []
+    passes = [full_product]
+    while passes:
+        full_product = passes.pop(0)
+        for cls, is_async, ae in ENVS:
+            envname = env_name(cls, is_async, ae)
+            env = make_env(envname)
+            log, leaks = [], []
+            env.globals["leak"] = make_leak(leaks)
+            data, coro = make_data(log)
+            rng = ctx.rng("e2e", envname)
 
-        def leak(v, _leaks=leaks):
-            if not isinstance(v, Undefined) and v is not None and v != "" and v != [] and "Undefined" not in str(type(v)):
-                # lists produced by filters over undefined values are fine; real values are not
-                if isinstance(v, list) and all(isinstance(i, Undefined) for i in v):
-                    return ""
-                _leaks.append(type(v).__name__)
-            return ""
-
-        env.globals["leak"] = leak
-        probe, lazy = make_probe(log)
-        data = {"p": probe, "lz": lazy}
-        for n in PRIVATE + LAZY_PRIVATE:
-            data["mk_" + (n.strip("_") or "u")] = Markup("{0.%s}" % n)
-        for obj, names in (("p", PRIVATE), ("lz", LAZY_PRIVATE), ("p.inner", ["_deep"]), ("p.seq[0]", ["_deep"])):
-            for name in names:
-                for rname, src in access_routes(obj, name):
+            # (1) the 23 routes with literal names (quick: the four configurations sandboxed / immutable /
+            # sandboxed-async / sandboxed-autoescape; otherwise all eight) ------------------------------------
+            literal_here = full_product or envname in ("sandboxed", "immutable", "sandboxed-async", "sandboxed-autoescape")
+            for obj, names in (("p", PRIVATE), ("lz", LAZY_PRIVATE), ("p.inner", ["_deep"]), ("p.seq[0]", ["_deep"])) if literal_here else ():
+                for name in names:
+                    for rname, src in access_routes(obj, name):
+                        distinct.add((envname, obj, name, rname))
+                        one(envname, env, src, data, log, leaks, f"C17:{rname}:{'lazy' if obj == 'lz' else 'probe'}",
+                            f"object {obj}, name {name!r}, route {rname}")
+            for obj, name in INTERNAL_EXPRS if literal_here else ():
+                for rname, src in list(access_routes(obj, name))[:11]:
                     distinct.add((envname, obj, name, rname))
-                    one(envname, env, src, data, log, leaks, f"C17:{rname}:{'lazy' if obj == 'lz' else 'probe'}",
-                        f"object {obj}, name {name!r}, route {rname}")
-        # internal attributes of special objects
-        sp, coro = special_objects()
-        for obj, name in INTERNAL_EXPRS:
-            for rname, src in list(access_routes(obj, name))[:11]:
-                distinct.add((envname, obj, name, rname))
-                d2 = dict(sp)
-                d2["mk_" + (name.strip("_") or "u")] = Markup("{0.%s}" % name)
-                one(envname, env, src, d2, log, leaks, f"C17:{rname}:internal:{obj}", f"object {obj}, name {name!r}, route {rname}")
-        coro.close()
-        # controls: public attributes are handed out (the probe is not vacuous)
-        for src, exp in (("{% set v = none %}{{ p.public }}|{{ p.method() }}|{{ p.inner.ok }}|{{ lz.name }}|{{ '{0.public}'.format(p) }}",
-                          "pub|method-ok|inner-ok|lazy-name|pub"),):
-            out, err = one(envname, env, src, data, log, leaks, "C17:control", "control")
-            if out != exp:
+                    one(envname, env, src, data, log, leaks, f"C17:{rname}:internal:{obj}", f"object {obj}, name {name!r}, route {rname}")
+
+            # (2) key kinds x lookup routes -------------------------------------------------------------------
+            # core pairs: the full product in every tier; the other pairs: full product when thorough / intensified,
+            # a seeded sample otherwise
+            core_pairs = [("p", "_secret", "probe"), ("lz", "_x", "lazy"), ("p", "__class__", "probe"), ("fn", "__globals__", "internal:fn")]
+            if not full_product and not literal_here:
+                core_pairs = core_pairs[:2]          # quick: the four secondary configurations take two core pairs
+            other_pairs = [c for c in [("p", "__class__", "probe"), ("fn", "__globals__", "internal:fn")] if c not in core_pairs] \
+                + [("p", n, "probe") for n in PRIVATE if n not in ("_secret", "__class__")] \
+                + [("lz", n, "lazy") for n in LAZY_PRIVATE if n != "_x"] + [("p.inner", "_deep", "probe"), ("p.seq[0]", "_deep", "probe"),
+                                                                          ("p", "inner._deep", "probe-dotted")] \
+                + [(o, n, "internal:" + o) for o, n in INTERNAL_EXPRS if (o, n) != ("fn", "__globals__")]
+
+            def product(pairs, select):
+                for obj, name, oclass in pairs:
+                    for kind, mk in KEY_KINDS:
+                        prefix, kexpr = mk(name, name_index[name])
+                        for rname, body, direct in key_routes(obj, "(" + kexpr + ")"):
+                            if kind == "none" and rname not in ("subscript", "attr-filter", "map-attr-filter", "nested-subscript",
+                                                                "loop-subscript", "macro-subscript", "cond-subscript"):
+                                continue                # attribute=none means "the item itself"
+                            if kind in NONSTR_KINDS and obj in ("s", "lst", "dct", "dq", "st"):
+                                continue                # an index / key of a container is an item, not an attribute
+                            if oclass.startswith("internal") and not direct:
+                                continue                # values of special objects are recognised by leak() only
+                            if oclass == "probe-dotted" and (rname in ("attr-filter", "map-attr-filter") or "subscript" in rname):
+                                continue                # a dotted path is only a path for attribute= arguments
+                            if not select(kind, rname):
+                                continue
+                            yield obj, name, oclass, kind, rname, prefix + body, direct
+
+            cases = list(product(core_pairs, lambda k, r: True))
+            if full_product:
+                cases += list(product(other_pairs, lambda k, r: True))
+            else:
+                rest = list(product(other_pairs, lambda k, r: True))
+                rng.shuffle(rest)
+                cases += rest[:150]
+            for obj, name, oclass, kind, rname, src, direct in cases:
+                distinct.add((envname, obj, name, kind, rname))
+                kinds_hit[kind] = kinds_hit.get(kind, 0) + 1
+                routes_hit[rname] = routes_hit.get(rname, 0) + 1
+                one(envname, env, src, data, log, leaks, f"C17:{rname}:key-{kind}:{oclass}",
+                    f"object {obj}, name {name!r} built as {kind}, route {rname}", direct=direct, capped=True)
+            if len(samples) < 6:
+                samples += [{"env": envname, "src": c[5]} for c in (cases[37 % len(cases)], cases[-1])]
+
+            # (3) format / format_map fetched off a string by a computed key -----------------------------------
+            fnames = PRIVATE if full_product else ["_secret", "__class__"] if literal_here else ["_secret"]
+            for name in fnames:
+                for kind, mk in KEY_KINDS:
+                    if kind in NONSTR_KINDS:
+                        continue
+                    p1, kf = mk("format", name_index["format"])
+                    p2, kfm = mk("format_map", name_index["format_map"])
+                    # the two prefixes bind the same helper names: build the format_map key from a renamed copy
+                    for rname, body in format_key_routes(name, "p", "(" + kf + ")", "(" + kfm + ")"):
+                        prefix = p2 if rname == "fmtkey-map-subscript" else p1
+                        distinct.add((envname, "p", name, kind, rname))
+                        kinds_hit[kind] = kinds_hit.get(kind, 0) + 1
+                        routes_hit[rname] = routes_hit.get(rname, 0) + 1
+                        one(envname, env, prefix + body, data, log, leaks, f"C17:{rname}:key-{kind}:probe",
+                            f"format string with field {name!r}, method name built as {kind}, route {rname}", direct=False, capped=True)
+
+            # audit of the key builders: which type each kind really produces here, and that it spells the name
+            for kind, mk in KEY_KINDS:
+                prefix, kexpr = mk("_secret", name_index["_secret"])
+                seen = []
+                env.globals["typeof"] = lambda v, _s=seen: _s.append((type(v).__name__, v)) or ""
+                out, err = render_case(env, prefix + "{{ typeof(" + kexpr + ") }}", data)
+                if err or len(seen) != 1 or (kind not in NONSTR_KINDS and not (isinstance(seen[0][1], str) and seen[0][1] == "_secret")):
+                    raise core.HarnessError(f"C17 key builder {kind} is broken in {envname}: {err} {seen!r}")
+                key_types.setdefault(kind, {}).setdefault(seen[0][0], []).append(envname)
+            coro.close()
+            # controls: public attributes are handed out through the same routes and key kinds (the probe is not vacuous)
+            ctl = ("{% set v = none %}{{ p.public }}|{{ p.method() }}|{{ p.inner.ok }}|{{ lz.name }}|{{ '{0.public}'.format(p) }}"
+                   "|{{ p['public'|safe] }}|{{ [p]|map(attribute='public'|e)|first }}|{{ p|attr('public'|safe) }}"
+                   "|{{ '{0.public}'['format'|safe](p) }}|{{ [p]|map(attribute='inner.ok'|safe)|first }}")
+            out, err = one(envname, env, ctl, data, log, leaks, "C17:control", "control")
+            if out != "pub|method-ok|inner-ok|lazy-name|pub|pub|pub|pub|pub|inner-ok":
                 raise core.HarnessError(f"C17 control failed in {envname}: {out!r} {err}")
 
+        # the tie is broken (translator failed / proofs fail / model differs) and the tier's sample found no failing
+        # input: search the whole product before giving up
+        if intensify and not full_product and not passes and not any(not v.no_input for v in res.violations):
+            passes.append(True)
+    if reported["suppressed"]:
+        res.notes.append(f"{reported['suppressed']} further leaking (route, key kind) combinations not listed (cap {cap})")
     res.coverage.update({
-        "evaluations": evaluations + n_cross,
+        "evaluations": evaluations + n_cross + n_access + n_wrap,
         "distinct_nontrivial": len(distinct),
-        "rule": ("adversarial access grammar: {probe with private instance/class/property/method/dunder attributes, "
-                 "lazy __getattr__ proxy, nested objects, 16 kinds of special objects with internal attributes} x "
+        "rule": ("(a) adversarial access grammar with literal names: {probe with private instance/class/property/method/dunder "
+                 "attributes, lazy __getattr__ proxy, nested objects, 16 kinds of special objects with internal attributes} x "
                  "{23 routes: dot, subscript, |attr, map(attribute=), map('attr'), 6 format/format_map/Markup.format/"
                  "stored-method forms, sort/join/sum/groupby/unique/min/selectattr/rejectattr attribute arguments, "
-                 "loop, macro argument} x {sandboxed, immutable, async, autoescape}; oracle = no tracer use, leak() "
-                 "never receives a defined value; every program's generated code is checked structurally; plus the "
-                 "cross-run of the translated decision functions"),
-        "samples": [{"src": "{% set v = '{0._secret}'.format(p) %}{{ leak(v) }}"}, {"src": "{% set v = gen.gi_frame %}{{ leak(v) }}"}],
+                 "loop, macro argument}; (b) the product {28 ways to build the key: literal, context str, |safe, |e, |escape, "
+                 "|forceescape, set block (+filter), set expr, macro result, call block, ~ with/without Markup, Markup + and %, "
+                 "|format, |join, filter chains, list element, loop variable, Markup / str subclass / split-preserving str "
+                 "subclass from the context, int, none, tuple, float} x {21 lookup routes through getitem/getattr: obj[key], "
+                 "|attr, map('attr'), attribute= of map/selectattr/rejectattr/sort/groupby/unique/min/max/sum/join, nested, "
+                 "loop, macro, conditional} for 4 core (object, name) pairs in full (quick: 2 of them in the four secondary "
+                 "configurations) and the other 41 pairs sampled by seed (quick) or in full (thorough, or a broken tie "
+                 "without a failing input so far); (c) 9 routes fetching format/format_map off a str/Markup by "
+                 "a computed key x 24 string key kinds; all x {sandboxed, immutable} x {sync, async} x {autoescape off, on}; "
+                 "oracle = no tracer use, leak() never receives a defined value, no TRACER in the output; every program's "
+                 "generated code is checked structurally; (d) cross-run of the translated decision functions and of the "
+                 "regenerated getitem/getattr/wrap_str_format on all 576 abstract worlds x 3 realisations x 6 targets. "
+                 "A case is non-trivial if it names a private/internal attribute (all do); distinct = (env, object, name, "
+                 "key kind, route)"),
+        "samples": [{"src": "{% set v = '{0._secret}'.format(p) %}{{ leak(v) }}"}, {"src": "{% set v = gen.gi_frame %}{{ leak(v) }}"}] + samples[:6],
         "structural_programs": structural_programs,
         "decision_crosscheck_cases": n_cross,
+        "access_crosscheck": {"cases": n_access, "real_outcomes": access_kinds, "drift": n_drift, "api_leaks": n_api_leaks,
+                              "wrap_str_format_cases": n_wrap, "abstract_counterexamples": [list(map(str, c)) for c in cex[:8]]},
+        "key_kinds": kinds_hit,
+        "key_types_built": {k: {t: len(e) for t, e in v.items()} for k, v in key_types.items()},
+        "routes": routes_hit,
+        "environments": [env_name(*e) for e in ENVS],
+        "full_product": full_product,
         "outcomes": outcomes,
     })
 
 
 def replay(ctx, case):
-    return case["case"]
+    """re-run one recorded case on the implementation"""
+    core.import_jinja()
+    c = case["case"]
+    if "api" in c and "world" in c:
+        from jinja2 import Environment
+        envname = c["env"]
+        env = Environment() if envname == "unsandboxed" else make_env(envname)
+        obj, argument, value, desc = ca.realise(tuple(c["world"]), c.get("variant", 0))
+        got = ca.classify(getattr(env, c["api"].replace("base-", "")), obj, argument, value)
+        return {"call": f"{type(env).__name__}.{c['api']}(obj, arg)", "input": desc, "observed": got}
+    if "src" not in c:
+        return c
+    env = make_env(c["env"])
+    log, leaks = [], []
+    env.globals["leak"] = make_leak(leaks)
+    data, coro = make_data(log)
+    out, err = render_case(env, c["src"], data)
+    coro.close()
+    return {"src": c["src"], "env": c["env"], "output": out, "error": err, "leak_got": leaks, "tracer_uses": log,
+            "violates": bool(leaks) or bool(log) or "TRACER" in out}
